@@ -2,7 +2,6 @@ package isobmff
 
 import (
 	"github.com/evanoberholster/imagemeta/meta"
-	"github.com/pkg/errors"
 )
 
 type PRVWBox struct {
@@ -12,14 +11,15 @@ type PRVWBox struct {
 }
 
 func (r *Reader) readPreview(b *box) (err error) {
+	// (the errors of both steps name their origin and are built once: see box.go)
 	inner, err := r.createPRVWBox(b)
 	if err != nil {
-		return errors.Wrapf(err, "ReadPRVWBox")
+		return err
 	}
 
 	r.prvw, err = parsePreviewBox(&inner)
 	if err != nil {
-		return errors.Wrapf(err, "parsePreviewBox")
+		return err
 	}
 
 	if r.PreviewImageReader != nil {
